@@ -196,8 +196,42 @@ def wfdCond (d : StructDef) (f : Field) : Bool :=
           | _ => true)
       | none => false)
 
+def condValue (g : Field) : Int :=
+  match g.cond with
+  | some c => c.value
+  | none => 0
+
+def distinctInts : List Int → Bool
+  | [] => true
+  | x :: xs => !xs.contains x && distinctInts xs
+
+/-- a union laid out before its discriminant, seen from its first member: the members are guarded by
+    `discriminant == v_i` with pairwise different `v_i`, the discriminant is of an enum type, and every
+    member of the enum is one of the `v_i` -- so exactly one member of the union is present in whatever
+    `deserialize` accepts -/
+def wfdUnion (S : Schema) (pre : List Field) (f : Field) (rest : List Field) : Bool :=
+  match unionHead pre f with
+  | none => true
+  | some dn =>
+    (f :: rest.takeWhile (condOn dn)).all (fun m => match m.cond with | some c => c.op == .eq && !c.viaSelf | none => false) &&
+    distinctInts ((f :: rest.takeWhile (condOn dn)).map condValue) &&
+    (match lookupField rest dn with
+      | some dnf =>
+        (match dnf.kind with
+          | .ref te _ =>
+            (match S.find te with
+              | some (.enum _ _ false ms) =>
+                ms.all (fun nv => (f :: rest.takeWhile (condOn dn)).any (fun m => condValue m == nv.2))
+              | _ => false)
+          | _ => false)
+      | none => false)
+
+def wfdUnionsFrom (S : Schema) : List Field → List Field → Bool
+  | _, [] => true
+  | pre, f :: rest => wfdUnion S pre f rest && wfdUnionsFrom S (pre ++ [f]) rest
+
 def wfdStruct (S : Schema) (d : StructDef) : Bool :=
-  d.fields.all (fun f => widthOk f.kind && wfdKind S d f && wfdCond d f)
+  d.fields.all (fun f => widthOk f.kind && wfdKind S d f && wfdCond d f) && wfdUnionsFrom S [] d.fields
 
 def WFD (S : Schema) : Bool :=
   S.all (fun nt => match nt.2 with
